@@ -65,3 +65,171 @@ Example C14_model_run :
     [COGet (4, 0); COGet (0, 0); COGet (4, 1); COSet (0, 0) 0 None; COGet (4, 1); COGet (4, 0)]
   = [CPanic (PB PCycle); COk 2; CPanic (PB PCycle); COk 0; COk 7; COk 7].
 Proof. exact Examples.ex14_run. Qed.
+
+(* ------------------------------------------------------------------------------------------
+   The single-thread statement over the CORE model (Core/Model.v: no cycle recovery, re-entry
+   of a claimed key is `fail PCycle`), for ALL programs of deterministic bodies — no rank, no
+   acyclicity hypothesis; cyclicity may depend on the inputs.  What is needed instead: a finite
+   list [ns] of keys closed under "may call" that contains the requested keys, and fuel at
+   least its length.
+
+   Scope (stage E1): Gets on a FRESH-REVISION state — a state whose memo table holds only
+   values of the current revision (in particular the initial database, and every state reached
+   from it by Gets, panicking or not).  Writes followed by Gets (validation of memos of older
+   revisions on possibly-cyclic programs) are NOT covered by a theorem; see
+   C14_usable_afterwards_full_statement above and Core/DCycleExamples.v (cy_run) for a run.
+   Proofs in Core/DCycleSem.v, DCycleInv.v, DCycleBound.v, DCycleTop.v. *)
+From Salsa.Core Require DCycleSem DCycleInv DCycleBound DCycleTop DCycleTerm DCycleTermTop DCycleExamples.
+
+(* [evalo prog (length ns) sn q] decides cyclicity: a value found with any fuel is found with
+   fuel [length ns] ... *)
+Theorem C14_acyclic_depth : forall (prog : qkey -> Salsa.Core.Model.body) (sn : Salsa.Core.Spec.snapshot)
+    (ns : list qkey),
+  (forall q d, In q ns -> Salsa.Core.Spec.calls (prog q) d -> In d ns) ->
+  forall q v, In q ns ->
+  (exists n, Salsa.Core.Spec.evalo prog n sn q = Some v) ->
+  Salsa.Core.Spec.evalo prog (length ns) sn q = Some v.
+Proof. exact Salsa.Core.DCycleBound.evalo_bound. Qed.
+Check C14_acyclic_depth : forall (prog : qkey -> Salsa.Core.Model.body) (sn : Salsa.Core.Spec.snapshot)
+    (ns : list qkey),
+  (forall q d, In q ns -> Salsa.Core.Spec.calls (prog q) d -> In d ns) ->
+  forall q v, In q ns ->
+  (exists n, Salsa.Core.Spec.evalo prog n sn q = Some v) ->
+  Salsa.Core.Spec.evalo prog (length ns) sn q = Some v.
+Print Assumptions C14_acyclic_depth.
+
+(* ... and [None] with that fuel is [None] with every fuel: the from-scratch evaluation of q
+   re-enters a node however long it is allowed to run. *)
+Theorem C14_cyclic_iff : forall (prog : qkey -> Salsa.Core.Model.body) (sn : Salsa.Core.Spec.snapshot)
+    (ns : list qkey),
+  (forall q d, In q ns -> Salsa.Core.Spec.calls (prog q) d -> In d ns) ->
+  forall q, In q ns ->
+  (Salsa.Core.Spec.evalo prog (length ns) sn q = None <->
+   forall n, Salsa.Core.Spec.evalo prog n sn q = None).
+Proof. exact Salsa.Core.DCycleBound.evalo_cyclic_iff. Qed.
+Check C14_cyclic_iff : forall (prog : qkey -> Salsa.Core.Model.body) (sn : Salsa.Core.Spec.snapshot)
+    (ns : list qkey),
+  (forall q d, In q ns -> Salsa.Core.Spec.calls (prog q) d -> In d ns) ->
+  forall q, In q ns ->
+  (Salsa.Core.Spec.evalo prog (length ns) sn q = None <->
+   forall n, Salsa.Core.Spec.evalo prog n sn q = None).
+Print Assumptions C14_cyclic_iff.
+
+(* Any sequence of Gets from a fresh-revision state [s] of snapshot [sn]
+   ([fresh_state prog sn s]: the environment of s is sn, no fault is armed, no claim is held, and
+   every memo is verified in the current revision and holds a from-scratch value of sn):
+   each Get of q answers `Ok v` with v the from-scratch value when the from-scratch evaluation
+   of q is acyclic, and `Panic PCycle` — never a value, never out of fuel, never another panic —
+   when it re-enters a node; and the state after the whole sequence (so after every prefix, and
+   after every cycle panic) is again a fresh-revision state of the same snapshot: the database
+   remains usable. *)
+Theorem C14_fresh_state_gets : forall (prog : qkey -> Salsa.Core.Model.body) (noeq : qkey -> bool)
+    (fams : list N) (sn : Salsa.Core.Spec.snapshot) (ns : list qkey),
+  (forall q d, In q ns -> Salsa.Core.Spec.calls (prog q) d -> In d ns) ->
+  forall fuel : nat, (length ns <= fuel)%nat ->
+  forall (qs : list qkey) (s : Salsa.Core.Model.db), incl qs ns ->
+  Salsa.Core.DCycleTop.fresh_state prog sn s ->
+  let r := Salsa.Core.Model.run_ops prog noeq fams fuel s (map Salsa.Core.Model.OGet qs) in
+  Salsa.Core.DCycleTop.fresh_state prog sn (fst r) /\
+  Forall2 (fun q o => match Salsa.Core.Spec.evalo prog (length ns) sn q with
+                      | Some v => o = Ok v
+                      | None => o = Panic PCycle
+                      end) qs (snd r).
+Proof. exact Salsa.Core.DCycleTop.gets_fresh. Qed.
+Check C14_fresh_state_gets : forall (prog : qkey -> Salsa.Core.Model.body) (noeq : qkey -> bool)
+    (fams : list N) (sn : Salsa.Core.Spec.snapshot) (ns : list qkey),
+  (forall q d, In q ns -> Salsa.Core.Spec.calls (prog q) d -> In d ns) ->
+  forall fuel : nat, (length ns <= fuel)%nat ->
+  forall (qs : list qkey) (s : Salsa.Core.Model.db), incl qs ns ->
+  Salsa.Core.DCycleTop.fresh_state prog sn s ->
+  let r := Salsa.Core.Model.run_ops prog noeq fams fuel s (map Salsa.Core.Model.OGet qs) in
+  Salsa.Core.DCycleTop.fresh_state prog sn (fst r) /\
+  Forall2 (fun q o => match Salsa.Core.Spec.evalo prog (length ns) sn q with
+                      | Some v => o = Ok v
+                      | None => o = Panic PCycle
+                      end) qs (snd r).
+Print Assumptions C14_fresh_state_gets.
+
+(* the initial database (any input values, any durabilities, any LRU configuration) is one *)
+Theorem C14_init_fresh : forall (prog : qkey -> Salsa.Core.Model.body) iv idur lru0,
+  Salsa.Core.DCycleTop.fresh_state prog (Salsa.Core.Spec.snap_of (Salsa.Core.Model.init iv idur lru0))
+    (Salsa.Core.Model.init iv idur lru0).
+Proof. exact Salsa.Core.DCycleTop.init_fresh. Qed.
+Check C14_init_fresh : forall (prog : qkey -> Salsa.Core.Model.body) iv idur lru0,
+  Salsa.Core.DCycleTop.fresh_state prog (Salsa.Core.Spec.snap_of (Salsa.Core.Model.init iv idur lru0))
+    (Salsa.Core.Model.init iv idur lru0).
+Print Assumptions C14_init_fresh.
+
+(* the two together, with nothing but model and specification in the statement *)
+Theorem C14_first_revision : forall (prog : qkey -> Salsa.Core.Model.body) (noeq : qkey -> bool)
+    (fams : list N) (ns : list qkey) iv idur lru0,
+  (forall q d, In q ns -> Salsa.Core.Spec.calls (prog q) d -> In d ns) ->
+  forall fuel : nat, (length ns <= fuel)%nat ->
+  forall qs : list qkey, incl qs ns ->
+  Forall2 (fun q o => match Salsa.Core.Spec.evalo prog (length ns)
+                              (Salsa.Core.Spec.snap_of (Salsa.Core.Model.init iv idur lru0)) q with
+                      | Some v => o = Ok v
+                      | None => o = Panic PCycle
+                      end) qs
+    (snd (Salsa.Core.Model.run_ops prog noeq fams fuel (Salsa.Core.Model.init iv idur lru0)
+            (map Salsa.Core.Model.OGet qs))).
+Proof.
+  intros prog noeq fams ns iv idur lru0 Hc fuel Hf qs Hq.
+  exact (proj2 (Salsa.Core.DCycleTop.gets_fresh prog noeq fams _ ns Hc fuel Hf qs _ Hq
+                  (Salsa.Core.DCycleTop.init_fresh prog iv idur lru0))).
+Qed.
+Check C14_first_revision : forall (prog : qkey -> Salsa.Core.Model.body) (noeq : qkey -> bool)
+    (fams : list N) (ns : list qkey) iv idur lru0,
+  (forall q d, In q ns -> Salsa.Core.Spec.calls (prog q) d -> In d ns) ->
+  forall fuel : nat, (length ns <= fuel)%nat ->
+  forall qs : list qkey, incl qs ns ->
+  Forall2 (fun q o => match Salsa.Core.Spec.evalo prog (length ns)
+                              (Salsa.Core.Spec.snap_of (Salsa.Core.Model.init iv idur lru0)) q with
+                      | Some v => o = Ok v
+                      | None => o = Panic PCycle
+                      end) qs
+    (snd (Salsa.Core.Model.run_ops prog noeq fams fuel (Salsa.Core.Model.init iv idur lru0)
+            (map Salsa.Core.Model.OGet qs))).
+Print Assumptions C14_first_revision.
+
+(* "Panic instead of hanging", over EVERY history: all programs (cyclic or not), all operations
+   (writes of any durability, synthetic writes, cell changes, fault injection, LRU capacity,
+   eviction, Gets of listed keys), from any idle state — the initial database is one — with fuel
+   at least the number of listed keys: no operation ever runs out of fuel (every Get ends with a
+   value or a panic), and the state in between holds no claim.  (Nothing about values here.) *)
+Theorem C14_never_hangs : forall (prog : qkey -> Salsa.Core.Model.body) (noeq : qkey -> bool)
+    (fams : list N) (ns : list qkey),
+  (forall q d, In q ns -> Salsa.Core.Spec.calls (prog q) d -> In d ns) ->
+  forall fuel : nat, (length ns <= fuel)%nat ->
+  forall (ops : list Salsa.Core.Model.op) (s : Salsa.Core.Model.db),
+  Forall (fun o => match o with Salsa.Core.Model.OGet q => In q ns | _ => True end) ops ->
+  Salsa.Core.DCycleTermTop.idle ns s ->
+  let r := Salsa.Core.Model.run_ops prog noeq fams fuel s ops in
+  Salsa.Core.DCycleTermTop.idle ns (fst r) /\ Forall (fun o => o <> Fuel) (snd r).
+Proof. exact Salsa.Core.DCycleTermTop.never_fuel. Qed.
+Check C14_never_hangs : forall (prog : qkey -> Salsa.Core.Model.body) (noeq : qkey -> bool)
+    (fams : list N) (ns : list qkey),
+  (forall q d, In q ns -> Salsa.Core.Spec.calls (prog q) d -> In d ns) ->
+  forall fuel : nat, (length ns <= fuel)%nat ->
+  forall (ops : list Salsa.Core.Model.op) (s : Salsa.Core.Model.db),
+  Forall (fun o => match o with Salsa.Core.Model.OGet q => In q ns | _ => True end) ops ->
+  Salsa.Core.DCycleTermTop.idle ns s ->
+  let r := Salsa.Core.Model.run_ops prog noeq fams fuel s ops in
+  Salsa.Core.DCycleTermTop.idle ns (fst r) /\ Forall (fun o => o <> Fuel) (snd r).
+Print Assumptions C14_never_hangs.
+
+Theorem C14_init_idle : forall (ns : list qkey) iv idur lru0,
+  Salsa.Core.DCycleTermTop.idle ns (Salsa.Core.Model.init iv idur lru0).
+Proof. exact Salsa.Core.DCycleTermTop.init_idle. Qed.
+Check C14_init_idle : forall (ns : list qkey) iv idur lru0,
+  Salsa.Core.DCycleTermTop.idle ns (Salsa.Core.Model.init iv idur lru0).
+Print Assumptions C14_init_idle.
+
+(* Non-vacuity over the Core model: a = if bit then b else 7, b = a + 1, c = x + 1.  Cycle panic
+   from either entry while the bit is set, the unrelated c is served in between; a write clears
+   the bit and both return their from-scratch values; setting it again makes them cyclic again. *)
+Example C14_core_run :
+  snd (Salsa.Core.Model.run_ops Salsa.Core.DCycleExamples.cy_prog Salsa.Core.DCycleExamples.cy_noeq [] 3
+         Salsa.Core.DCycleExamples.cy_init Salsa.Core.DCycleExamples.cy_ops)
+  = [Panic PCycle; Ok 5; Panic PCycle; Ok 0; Ok 8; Ok 7; Ok 0; Panic PCycle].
+Proof. exact Salsa.Core.DCycleExamples.cy_run. Qed.
